@@ -232,6 +232,8 @@ func (r *renderer) stmt(s Stmt) {
 			r.t(";", false)
 			if x.Cond != nil {
 				r.condExpr(x.Cond)
+			} else {
+				r.t(";", false) // an absent condition is written `; ;` (the parser wants a third semicolon)
 			}
 			r.t(";", false)
 			if x.Post != nil {
